@@ -17,16 +17,25 @@ call in the call's event ("range_viol", first site and value) and TLC evaluates
 the clause ClaimedRangesHold (spec/IOClauses.tla) on every such event.  Thorough
 tier: every job; quick tier: every input under its one-shot schedule plus a
 seeded sample of the chunked jobs.
+
+Token decoders (std/json, std/cbor): every decode_tokens call's event carries the
+tokens written and the source bytes consumed (inputs up to 16 KiB; running
+summaries above) and TLC evaluates the token-stream clauses of
+spec/TokenStream.tla on them: TokenLengthsPartitionSource, TokenChainsClosed,
+TokenStructureBalanced, TokenUtf8NotStraddled, TokenNumberUnsplit,
+TokenFieldsWellFormed.  Generated JSON / CBOR documents (lib/tokgen.py) and their
+mutants are added, under 1-byte source pieces and token buffers of 1, 2, 3 tokens
+(IOSchedule!TokDstLists).
 """
-import json, os, shutil, time, concurrent.futures
+import json, os, random, shutil, time, concurrent.futures
 from vlib import ToolingError, VERIF, parse_tlc_prints
-import stdbuild, stdtrace, stdinputs
+import stdbuild, stdtrace, stdinputs, tokgen
 
 META = {
     "level": "exploration",
     "technique": "trace validation by TLC: per-call events of the sanitizer-instrumented generated C (corpus + seeded mutants + every prefix with a late close x IOSchedule.tla buffer schedules) checked against the I/O contract clauses of IOClauses.tla via Trace_Std.tla; a second, 'checked' build of std (hook H3) asserts the compiler's own derived range of every index, slice bound, arithmetic result and conversion at run time and TLC evaluates ClaimedRangesHold on every call; closed contract model IOContract.tla model-checked",
     "text": "Every public call the driver makes on every std decoder/hasher is logged and validated by TLC against the I/O contract (index order, monotone ri/wi, source and written destination bytes unchanged, legal status class, no internal error, justified short read/short write, no allocation) while ASan+UBSan watch the same executions and a CPU-time watchdog (confirmed with a 4x budget) bounds each job; the checked build (14 000 assertion sites in std, the checker's MBounds) runs the one-shot jobs and a sample of the chunked ones (thorough: all). Memory safety of 60k lines of codec is observed, not proved: exploration.",
-    "note": "Trusted: gcc's sanitizers, the driver harness/c/stddrive.c (hashes/memcmp, schedule unfolding checked against IOSchedule.tla), TLC. Inputs are the repository corpus plus seeded mutations; schedules are the IOSchedule classes; only executions actually run are covered.",
+    "note": "Token decoders: the recorded token stream of every call is checked by TLC against spec/TokenStream.tla (lengths partition the consumed bytes, chains closed and structure balanced at OK, UTF-8 never straddles a token, numbers unsplit). Trusted: gcc's sanitizers, the driver harness/c/stddrive.c (hashes/memcmp, schedule unfolding checked against IOSchedule.tla), TLC. Inputs are the repository corpus plus seeded mutations; schedules are the IOSchedule classes; only executions actually run are covered.",
 }
 
 SCHED_CFG = "SPECIFICATION Spec\nCONSTANT MaxN = %d\nINVARIANT Partition\n"
@@ -52,6 +61,8 @@ def spec_side(ctx):
         raise ToolingError("IOSchedule export produced no classes:\n" + res["out"][-1500:])
     classes = objs[0]["classes"]
     classes.sort(key=lambda c: json.dumps(c, sort_keys=True))
+    global TOKDST
+    TOKDST = sorted(objs[0].get("tokdst", TOKDST))
     return classes
 
 
@@ -65,6 +76,7 @@ def save_input(ctx, path, name):
     return dst
 
 
+TOKDST = [[-1], [1], [2], [3], [13]]      # token-buffer capacities; replaced by IOSchedule!TokDstLists as exported by TLC
 RANGE = "rangeassert"   # stdbuild variant of the checked build
 RANGE_ID0 = 10000000    # job ids of the checked build's copies of the jobs
 
@@ -155,6 +167,33 @@ def run(ctx):
                 j2["id"] = jid
                 meta[jid] = meta[jid - 1]
                 jobs_asan.append(j2)
+    # token decoders: generated JSON / CBOR documents (+ mutants) one-shot, under 1-byte source pieces and under token buffers of
+    # 1, 2, 3 tokens (never below the decoder's documented minimum); own random stream, so the jobs above stay as they were
+    trng = random.Random(ctx.seed * 7919 + 3)
+    tokdocs = tokgen.write_docs(ctx.subdir("tokdocs"), trng, 20 if thorough else 8, 16 if thorough else 6, mutants=2 if thorough else 1)
+    ntokjobs = 0
+    for (p, dec, extra, origin) in tokdocs:
+        n = os.path.getsize(p)
+        caps = [d for d in TOKDST if d[0] < 0 or d[0] >= tokgen.TOKEN_CAP_MIN[dec]]
+        scheds = [{"src": [-1], "dst": [-1]}]
+        if n <= (6000 if thorough else 1500):
+            scheds.append({"src": [1], "dst": trng.choice(caps), "close": trng.choice(("end", "late")), "srcmode": trng.choice(("view", "fresh"))})
+        small = [d for d in caps if 0 < d[0] <= 3]
+        if n <= 20000:
+            for d in (small if thorough else [trng.choice(small)]):
+                scheds.append({"src": trng.choice(([-1], [2], [3], [7])), "dst": d, "close": trng.choice(("end", "late"))})
+        for sc in scheds:
+            jid += 1
+            c = dict(trng.choice(classes), **sc)
+            j = {"id": jid, "dec": dec, "in": p}
+            j.update(stdinputs.class_fields(c))
+            j.update(extra)
+            j["budget_ms"] = 30000
+            j["maxcalls"] = 30000
+            meta[jid] = {"input": p, "origin": origin, "dec": dec, "class": c}
+            jobs_asan.append(j)
+            ntokjobs += 1
+    ctx.log("token-decoder jobs on generated documents: %d over %d documents" % (ntokjobs, len(tokdocs)))
     # systematic: EVERY prefix of the smallest corpus file(s) of each decoder, delivered whole or byte by byte, with the
     # source closed only by a LATER call that brings no new bytes (close=late).  A decoder that keeps bits or bytes
     # buffered across a "$short read" meets the end of the input in every such buffered state (std/lzw reported an
@@ -264,6 +303,9 @@ def run(ctx):
         "jobs_under_allocator_wrap": len(jobs_plain),
         "final_status_classes_per_decoder": stat,
         "schedule_classes": len(classes),
+        "token_streams": dict(stdtrace.token_stats(dict(allj)), clauses=["TokenLengthsPartitionSource", "TokenChainsClosed", "TokenStructureBalanced",
+                                                                         "TokenUtf8NotStraddled", "TokenNumberUnsplit", "TokenFieldsWellFormed"],
+                              generated_documents=len(tokdocs), jobs_on_generated_documents=ntokjobs),
         "checked_build": checked,
         "states": sum(t["distinct"] for t in ctx.tlc_stats),
         "transitions": sum(t["generated"] for t in ctx.tlc_stats),
